@@ -16,7 +16,7 @@ def bounded(rep, tier):
     from vrf.propkit import pool_map
     from vrf.bounded import inherit_grid as G
     t0 = time.time()
-    ns = 60 if tier == "quick" else 600
+    ns = 60 if tier == "quick" else 6000
     outs = [b for o in pool_map(G.run_case, [(s,) for s in range(ns)]) for b in o]
     bound = "%d x 12 random chains of length 1-4: defs, named and anonymous blocks, module attributes, self/next/parent/local calls, next.body() chaining, static and dynamic <%%inherit>" % ns
     if outs:
